@@ -9,7 +9,9 @@ import (
 	"time"
 
 	"github.com/bokysan/socketace/v2/internal/server"
+	"github.com/bokysan/socketace/v2/internal/socketace"
 	sdns "github.com/bokysan/socketace/v2/internal/streams/dns"
+	"github.com/bokysan/socketace/v2/internal/util/cert"
 	kcp "github.com/xtaci/kcp-go/v5"
 	"github.com/xtaci/smux"
 )
@@ -327,6 +329,52 @@ func scenarioC14(r *Run) {
 					pc.Close() // the session does not own the socket it was given
 				}
 				r.Count("silent_peers")
+			}
+		}
+		// silent logical connections: a peer completes the session set-up, opens 1-3 logical connections and never
+		// says which channel it wants - for longer than any allowance - then ends its session. Nothing of them
+		// may remain on the server (plain stream carriers, where the harness can speak the protocol itself).
+		if carrier == "tcp" || carrier == "unix" {
+			if k := c.Pick(3, "silent-logical-connections"); k > 0 {
+				port := CarrierPort(carrier)
+				r.Net.SourceIP = "10.0.1.90"
+				var sc net.Conn
+				var err error
+				if carrier == "unix" {
+					sc, err = r.Net.Dial("unix", fmt.Sprintf("sa-%d.sock", port), 0)
+				} else {
+					sc, err = r.Net.Dial("tcp", fmt.Sprintf("%s:%d", ServerIP, port), 0)
+				}
+				r.Net.SourceIP = ClientIP
+				if err != nil {
+					r.Fail("harness", "peer with silent logical connections could not connect: %v", err)
+					return false
+				}
+				hold := time.Duration(35+c.Pick(40, "silent-logical-s")) * time.Second
+				over, opened := false, 0
+				go func() {
+					defer func() { over = true }()
+					cc, err := socketace.NewClientConnection(sc, &cert.ClientConfig{InsecureSkipVerify: true}, false, "server.test:1")
+					if err != nil {
+						return
+					}
+					sess, err := smux.Client(cc, smux.DefaultConfig())
+					if err != nil {
+						return
+					}
+					for i := 0; i < k; i++ {
+						if _, err := sess.OpenStream(); err == nil {
+							opened++
+						}
+					}
+					time.Sleep(hold)
+					sess.Close()
+				}()
+				for i := 0; i < 200 && !over; i++ {
+					r.RunFor(time.Second)
+				}
+				sc.Close()
+				r.CountN("silent_logical_connections", opened)
 			}
 		}
 		// refused connections: the application connects to the listener of a channel the server does not
